@@ -49,17 +49,29 @@ def bools(l) -> str:
     return ''.join('1' if b else '0' for b in l) if l else '-'
 
 
+class StubMismatch(Exception):
+    """the implementation asked the scripted generator for something other than one `.random()` per
+    qubit: another sampling mechanism.  Not a violation by itself (the distribution is what C11 fixes)."""
+
+
 class StubRng:
-    """Generator stub: `.random()` returns the next prepared variate."""
+    """Generator stub: `.random()` returns the next prepared variate (`.random(k)` the next k)."""
 
     def __init__(self, us):
         self.us = us
         self.i = 0
 
-    def random(self):
-        x = self.us[self.i]
-        self.i += 1
-        return x
+    def random(self, size=None, *a, **kw):
+        import numpy as np
+        m = 1 if size is None else int(np.prod(size))
+        if self.i + m > len(self.us):
+            raise StubMismatch('more variates requested than scripted')
+        xs = self.us[self.i:self.i + m]
+        self.i += m
+        return xs[0] if size is None else np.array(xs, dtype=float).reshape(size)
+
+    def __getattr__(self, name):
+        raise StubMismatch(f'Generator.{name} requested')
 
 
 class GridRng:
@@ -68,16 +80,22 @@ class GridRng:
     def __init__(self, M, n):
         self.M, self.n, self.i = M, n, 0
 
-    def random(self):
+    def _next(self):
         t, q = divmod(self.i, self.n)
         self.i += 1
         d = (t // (self.M ** (self.n - 1 - q))) % self.M
         return d / self.M
 
+    def random(self, size=None, *a, **kw):
+        import numpy as np
+        if size is None:
+            return self._next()
+        if int(np.prod(size)) != self.n or self.i % self.n != 0:
+            raise StubMismatch('variates are not drawn one block of n per trial')
+        return np.array([self._next() for _ in range(self.n)], dtype=float).reshape(size)
 
-class DecoderFailure(Exception):
-    """The third-party / library decoder itself raised: not an input of C11 (decoders are a
-    parameter of the property; their own validity is C05)."""
+    def __getattr__(self, name):
+        raise StubMismatch(f'Generator.{name} requested')
 
 
 class SpyDecoder:
@@ -87,8 +105,13 @@ class SpyDecoder:
         self._inner = inner
         self.calls = []
 
+    interrupt_at = None      # index of the decode call during which the user presses Ctrl-C (once)
+
     def decode(self, syndrome, **kw):
         s = [int(x) for x in syndrome]
+        if self.interrupt_at is not None and len(self.calls) == self.interrupt_at:
+            self.interrupt_at = None
+            raise KeyboardInterrupt()
         try:
             c = self._inner.decode(syndrome, **kw)
         except Exception as e:  # noqa
@@ -521,9 +544,17 @@ def check_case(case):
             spy = dec
             sim = DirectSimulation(code, em, spy, p, verbose=False, rng=np.random.default_rng(case['seed']))
             total = 0
+            if case.get('interrupt_at') is not None:
+                spy.interrupt_at = int(case['interrupt_at'])
             for k in case['runs']:
-                sim.run(k)
-                total += k
+                before = len(spy.calls)
+                try:
+                    sim.run(k)
+                    total += k
+                except KeyboardInterrupt:
+                    # a run interrupted inside a trial: the finished trials stay, the unfinished one leaves
+                    # no trace; the object must be consistent and resumable
+                    total += len(spy.calls) - before
                 res = sim.results
                 lens = (len(res['effective_error']), len(res['success']), len(res['codespace']))
                 if res['n_runs'] != total or lens != (total,) * 3:
@@ -564,18 +595,33 @@ def check_case(case):
                 return 'two runs with the same seed differ'
             return None
         if kind == 'seed-used':
-            # the simulation's generator is the one that draws the errors: a stub stream must be consumed
-            code, em, dec, p = build(case['combo'])
-            stub = StubRng([0.0] * (code.n * 3))
-            sim = DirectSimulation(code, em, dec, p, verbose=False, rng=stub)
-            sim.run(3)
-            if stub.i != 3 * code.n:
-                return f'{stub.i} variates read from the simulation generator for 3 trials of {code.n} qubits'
+            # the generator handed to the simulation is the ONLY source of randomness: two runs with equal
+            # generators give equal records whatever state the global numpy / random generators are in, and
+            # the generator is consumed (mechanism-free: nothing is assumed about how many variates are drawn)
+            import random as _random
+            outs = []
+            for glob_seed in (1, 2):
+                np.random.seed(glob_seed)
+                _random.seed(glob_seed)
+                code, em, dec, p = build(case['combo'])
+                g = np.random.default_rng(12345)
+                before = str(g.bit_generator.state)
+                sim = DirectSimulation(code, em, dec, p, verbose=False, rng=g)
+                sim.run(3)
+                res = sim.results
+                outs.append((b''.join(np.asarray(x).tobytes() for x in res['effective_error']),
+                             list(res['success']), list(res['codespace']), [c_[0] for c_ in dec.calls]))
+                if 0 < float(p) and str(g.bit_generator.state) == before:
+                    return 'the generator handed to the simulation was not consumed by 3 trials'
+            if outs[0] != outs[1]:
+                return 'two runs with equal generators differ when the global numpy/random state differs'
             return None
         if kind == 'calibration':
             return calibration_violation(case['case'])
     except DecoderFailure:
         return None          # the decoder itself raised: outside C11
+    except StubMismatch:
+        return None          # another sampling mechanism: the scripted variates say nothing
     except Exception as e:  # noqa
         return f'raised {type(e).__name__}: {e}'
     return None
@@ -584,6 +630,7 @@ def check_case(case):
 def calibration_violation(case):
     """n_fail/n_runs of DirectSimulation over the complete grid must equal the exact failure
     probability: sum over all errors of P(e) * [decoder fails on e]."""
+    import numpy as np
     code, em, dec, p = build(case)
     H, Lx, Lz = mats(code)
     chan = reference_channel(code, case)
@@ -611,7 +658,26 @@ def calibration_violation(case):
         if not ok:
             exact += w
         n_err += 1
-    res = run_grid(case)
+    try:
+        res = run_grid(case)
+    except StubMismatch:
+        # another sampling mechanism: no exact grid; compare the failure frequency of real sampling with
+        # the exact failure probability (exact binomial tail, same threshold as the C07 sampling oracle)
+        from scipy.stats import binom
+        from panqec.simulation import DirectSimulation
+        code2, em2, dec2, p2 = build(case)
+        N = 20000
+        sim = DirectSimulation(code2, em2, dec2, p2, verbose=False, rng=np.random.default_rng(2718))
+        sim.run(N)
+        r = sim.get_results()
+        k = int(r['n_fail'])
+        q = float(exact)
+        t = 1.0 if (q <= 0 and k == 0) or (q >= 1 and k == N) else 0.0 if q <= 0 or q >= 1 else \
+            min(1.0, 2 * min(binom.cdf(k, N, q), binom.sf(k - 1, N, q)))
+        if t < 1e-10:
+            return (f'n_fail/n_runs = {k}/{N} with a real generator, exact failure probability {q:.6f} '
+                    f'(binomial tail {t:.1e})')
+        return None
     if res is None:
         return None   # decoder not a function of the syndrome: not a calibration instance
     _, _, _, n_fail, n_runs = res
@@ -639,6 +705,9 @@ def oracle_cases(ctx, deep):
             cases.append({'kind': 'record', 'combo': combo, 'seed': int(rng.integers(0, 2 ** 31))})
         runs = [int(x) for x in rng.integers(0, 4, int(rng.integers(1, 5)))]
         cases.append({'kind': 'history', 'combo': combo, 'seed': int(rng.integers(0, 2 ** 31)), 'runs': runs})
+        runs2 = [int(x) for x in rng.integers(1, 5, 3)]
+        cases.append({'kind': 'history', 'combo': combo, 'seed': int(rng.integers(0, 2 ** 31)), 'runs': runs2,
+                      'interrupt_at': int(rng.integers(0, sum(runs2[:2])))})
         cases.append({'kind': 'same-seed', 'combo': combo, 'seed': int(rng.integers(0, 2 ** 31)),
                       'runs': [2, 1]})
     for combo in usable[:4]:
